@@ -38,6 +38,7 @@ import (
 type DecodeCase struct {
 	Target string `json:"target"`
 	Data   h.Hex  `json:"data"`
+	Origin string `json:"origin,omitempty"` // how the generator made the bytes (label only)
 }
 
 // internal limits of the reactors' DecodeMessage functions (reactor.go constants)
@@ -308,6 +309,9 @@ func runDecode(c DecodeCase, x ctx) {
 		return
 	}
 	x.Labelf("target:%s", c.Target)
+	if c.Origin != "" {
+		x.Labelf("origin:%s", c.Origin)
+	}
 	x.Labelf("outcome:%s/%s", fam, outcome)
 	x.Labelf("len:%s", lenBucket(len(data)))
 	if outcome == "accepted" || outcome == "partial" {
@@ -356,6 +360,56 @@ func validEncoding(t *rapid.T, target string) []byte {
 		out, _ = refrlp.EncodeToBytes(pv.Interface())
 	}
 	return out
+}
+
+// binLayout builds a typed value for a bin:/msg: target and lays its encoding out; ok only when
+// the independent layout agrees byte for byte with wire.BinaryBytes and has a length prefix.
+func binLayout(s *src, target string) (*layout, bool) {
+	i := strings.Index(target, ":")
+	fam, name := target[:i], target[i+1:]
+	if fam == "msg" {
+		name = msgKind[name]
+	}
+	spec := kindByName[name]
+	if spec == nil {
+		return nil, false
+	}
+	pv, _ := buildValue(spec, codecBin, s)
+	enc := encodable(pv, !spec.valOnly)
+	var ref []byte
+	if safely(func() { ref = wire.BinaryBytes(enc) }) != nil {
+		return nil, false
+	}
+	l := layoutOf(enc)
+	l.ok = l.ok && bytes.Equal(l.buf, ref)
+	return l, l.ok && len(l.pre) > 0
+}
+
+func prefixTruth(l *layout, p lenPrefix) int {
+	v := 0
+	for _, b := range l.buf[p.off+1 : p.off+p.size] {
+		v = v<<8 | int(b)
+	}
+	return v
+}
+
+// hostileEncoding: a valid encoding in which one (sometimes two) length prefixes are replaced
+// by a boundary varint, at the exact position where the decoder expects a length.
+func hostileEncoding(t *rapid.T, target string) ([]byte, bool) {
+	l, ok := binLayout(recSrc(t), target)
+	if !ok {
+		return nil, false
+	}
+	p := l.pre[rapid.IntRange(0, len(l.pre)-1).Draw(t, "prefix")]
+	hv := hostileVarints(p.off, len(l.buf), prefixTruth(l, p))
+	out := splice(l.buf, p, hv[rapid.IntRange(0, len(hv)-1).Draw(t, "hostile")])
+	switch rapid.IntRange(0, 5).Draw(t, "after") {
+	case 0:
+		out = out[:p.off+rapid.IntRange(1, 9).Draw(t, "cut")%(len(out)-p.off)+1] // input ends inside / right after the prefix
+	case 1:
+		out = append(out, bytes.Repeat([]byte{0xff}, rapid.IntRange(1, 64).Draw(t, "pad"))...)
+	}
+	return out, true
 }
 
 var bombs = [][]byte{
@@ -518,8 +572,16 @@ func genDecode(t *rapid.T) DecodeCase {
 		if fam == "msg" && len(data) > 0 && rapid.Bool().Draw(t, "fixType") {
 			data[0] = rapid.SampledFrom([]byte{0x01, 0x02, 0x10, 0x11, 0x12, 0x13, 0x14, 0x15, 0x16, 0x17, 0x20, 0x21}).Draw(t, "typeByte")
 		}
-		c.Data = data
+		c.Data, c.Origin = data, "raw"
 		return c
+	case 2, 3, 4:
+		if fam == codecBin || fam == "msg" {
+			if hd, ok := hostileEncoding(t, c.Target); ok {
+				c.Data, c.Origin = hd, "hostile-length-prefix"
+				return c
+			}
+		}
+		data = validEncoding(t, c.Target)
 	default:
 		data = validEncoding(t, c.Target)
 	}
@@ -534,11 +596,31 @@ func genDecode(t *rapid.T) DecodeCase {
 			data = mutateBytes(t, data)
 		}
 	}
-	c.Data = data
+	c.Data, c.Origin = data, fmt.Sprintf("valid+%dmut", nm)
 	return c
 }
 
 func TestDecode(t *testing.T) {
+	if !h.Replaying() {
+		// guard against vacuity of the position-aware splicing: the independent layout must
+		// agree with wire.BinaryBytes on (nearly) all generated values
+		agree, total := 0, 0
+		for _, tg := range allTargets() {
+			if !strings.HasPrefix(tg, "bin:") && !strings.HasPrefix(tg, "msg:") {
+				continue
+			}
+			for k := 0; k < 6; k++ {
+				total++
+				if l, _ := binLayout(playSrc(detTape(uint64(k)*131+uint64(len(tg)), 4000)), tg); l != nil && l.ok {
+					agree++
+				}
+			}
+		}
+		if agree != total {
+			t.Fatalf("layout walker agrees with wire.BinaryBytes on only %d of %d values", agree, total)
+		}
+		h.Note("C18", "decode", "length-prefix layout agrees with wire.BinaryBytes on %d of %d sample values", agree, total)
+	}
 	h.Check(t, h.Spec[DecodeCase]{Prop: "C18", Leg: "decode", Gen: genDecode, Run: func(c DecodeCase, x *h.Ctx) { runDecode(c, x) }})
 }
 
@@ -694,6 +776,23 @@ func writeSeeds(t *testing.T) {
 			}
 		}
 		os.WriteFile(filepath.Join(dir, "seed-empty"), []byte("go test fuzz v1\n[]byte(\"\")\n"), 0o644)
+		if fam == codecBin || fam == "msg" {
+			// hostile length prefixes at real prefix positions
+			nh := 0
+			for k := 0; k < 40 && nh < 8; k++ {
+				l, ok := binLayout(playSrc(detTape(uint64(k+1)*104729+uint64(len(name)), 4000)), target)
+				if !ok {
+					continue
+				}
+				p := l.pre[(k*7)%len(l.pre)]
+				hv := hostileVarints(p.off, len(l.buf), prefixTruth(l, p))
+				pick := []int{0, 7, 8, 15, 24, 25, 33, 36}[nh] // MaxInt64, MaxInt64-n.., 2^62, leading zeros, negative..
+				data := splice(l.buf, p, hv[pick%len(hv)])
+				body := fmt.Sprintf("go test fuzz v1\n[]byte(%q)\n", data)
+				os.WriteFile(filepath.Join(dir, fmt.Sprintf("seed-hostile-%d", nh)), []byte(body), 0o644)
+				nh++
+			}
+		}
 	}
 }
 
